@@ -20,12 +20,12 @@ LAYOUTS_T = LAYOUTS_Q + ['bbb_a2', 'tears_a1', 'tears_v1', 'syn_long_first', 'sy
 ASSUMPTIONS = [
     'indexing: a parsed file is ftyp, moov, then k in 2..4 (quick) fragments moof+mdat (optionally followed by sidx/free), atoms tile the file (position_{i+1} = position_i + size_i); sizes, sample durations, first sequence number and first decode time are symbolic',
     'vod addressing: catalogue layouts with a symbolic startNumber (0 .. 2**31) and symbolic requested number',
-    'vod-xref: the stream timing reference has the representation\'s timescale and a symbolic media duration in (stored duration - last segment, stored duration]',
+    'vod-xref: the stream timing reference has the representation\'s timescale and a symbolic media duration in (stored duration - last segment, stored duration + 2 longest segments]',
     'the moov box handed to Representation.load is the parsed moov of tests/fixtures/bbb/bbb_v7.mp4',
 ]
 OUTSIDE = ['manifest templates (which attribute prints which value)', 'on-demand byte ranges beyond C13',
            'layouts outside the catalogue for $Time$ addressing',
-           'vod timelines when the timing reference is longer than the representation or shorter by more than its last segment (the listed entry count then differs from the stored count on the unchanged tree; not triaged)']
+           'vod timelines when the timing reference is shorter than the representation by more than its last segment (the list is then cut at the reference duration)']
 
 
 def bounds(tier):
@@ -266,7 +266,7 @@ def _xref_ref(name, md_ref):
 
 def h_vod_xref(sx, name):
     """a representation whose stored duration differs from the stream timing reference (symbolic
-    reference duration inside the representation's last segment): the vod SegmentTimeline still
+    reference duration from inside the representation's last segment to two segments past its end): the vod SegmentTimeline still
     lists the *stored* segments - count, start, every duration, total = stored media duration"""
     import json
     from pysx.core import sx_and
@@ -277,7 +277,7 @@ def h_vod_xref(sx, name):
     N = rep.num_media_segments
     stored = [s['duration'] for s in j['segments'][1:]]
     md = sum(stored)
-    md_ref = sx.int('ref_media_duration', md - stored[-1] + 1, md)
+    md_ref = sx.int('ref_media_duration', md - stored[-1] + 1, md + 2 * max(stored))
     timing = DashTiming(tk.ast_real(), _xref_ref(name, md_ref), common.live_opts(mode='vod'))
     rep.set_dash_timing(timing)
     try:
